@@ -445,6 +445,8 @@ class ArgumentParser(ParserDeprecations, ActionsContainer, ArgumentLinking, argp
             if not all(isinstance(a, str) for a in args):
                 self.error(f"All arguments are expected to be strings: {args}")
         self.args = args
+        if hasattr(self, "print_config"):
+            delattr(self, "print_config")  # request left behind by an earlier call that exited (e.g. --help)
 
         try:
             cfg = self._parse_defaults_and_environ(defaults, env)
